@@ -14,6 +14,64 @@ def fillish(h):
         any(c["c"] == "put_att" and c["a"]["name"] == "_FillValue" and c["rc"] == "NC_NOERR" for c in h)
 
 
+def scenarios(tier):
+    """deterministic fill scenarios: dataset mode re-asserted after a per-variable override; records appended in
+    independent mode by one process only, then a redefinition (entered straight from independent mode) that adds a
+    record variable in fill mode"""
+    ex = []
+    O = filegen.OBS
+    n = 0
+    for fmt in [1, 5]:
+        for M in ["FILL", "NOFILL"]:
+            for again in [M, "FILL" if M == "NOFILL" else "NOFILL"]:
+                cm = ["CLOBBER"] + ([filegen.FMT[fmt]] if filegen.FMT[fmt] else [])
+                st = [{"op": "create", "path": "a.nc", "cmode": cm, "fmtno": fmt, "obs": ["exists"]},
+                      {"op": "def_dim", "name": "x", "norm": "x", "len": 8}, {"op": "def_dim", "name": "t", "norm": "t", "len": 0},
+                      {"op": "set_fill", "fill": M},
+                      {"op": "def_var", "name": "a", "norm": "a", "xtype": "int", "dims": [0]},
+                      {"op": "def_var", "name": "r", "norm": "r", "xtype": "int", "dims": [1, 0]},
+                      {"op": "def_var_fill", "v": 0, "nofill": 1 if M == "FILL" else 0},
+                      {"op": "def_var_fill", "v": 1, "nofill": 1 if M == "FILL" else 0},
+                      {"op": "set_fill", "fill": again},
+                      {"op": "def_var", "name": "b", "norm": "b", "xtype": "short", "dims": [0]},
+                      {"op": "enddef"},
+                      {"op": "get", "v": 0, "mode": "coll", "itype": "int", "rec": 0, "form": "vara", "n": 8, "start": [0], "count": [8], "obs": []},
+                      {"op": "get", "v": 2, "mode": "coll", "itype": "short", "rec": 0, "form": "vara", "n": 8, "start": [0], "count": [8], "obs": []},
+                      {"op": "fill_var_rec", "v": 1, "rec": 0}, {"op": "close"}]
+                for s in st:
+                    s.setdefault("obs", O)
+                ex.append({"x": "sa%d" % n, "np": 1, "steps": st})
+                n += 1
+    for np_ in ([2, 3] if tier == "quick" else [2, 3, 4, 5]):
+        for fmt in [1, 2, 5]:
+            for writer in range(1, np_):
+                cm = ["CLOBBER"] + ([filegen.FMT[fmt]] if filegen.FMT[fmt] else [])
+                W = 8
+                st = [{"op": "create", "path": "a.nc", "cmode": cm, "fmtno": fmt, "obs": ["exists"]},
+                      {"op": "def_dim", "name": "t", "norm": "t", "len": 0}, {"op": "def_dim", "name": "x", "norm": "x", "len": W},
+                      {"op": "def_var", "name": "r1", "norm": "r1", "xtype": "int", "dims": [0, 1]},
+                      {"op": "enddef"},
+                      {"op": "begin_indep", "obs": ["schema"]}]
+                for r in range(3):   # records appended by one process only, independently
+                    st.append({"op": "put", "v": 0, "mode": "indep", "itype": "int", "rec": r, "form": "vara", "start": [r, 0], "count": [1, W],
+                               "vals": [10 * r + k + 1 for k in range(W)], "ranks": [writer], "obs": ["schema"]})
+                st += [{"op": "redef", "obs": ["schema"]},               # straight from independent mode
+                       {"op": "set_fill", "fill": "FILL", "obs": ["schema"]},
+                       {"op": "def_var", "name": "r2", "norm": "r2", "xtype": "int", "dims": [0, 1], "obs": ["schema"]},
+                       {"op": "put_att", "v": 1, "name": "_FillValue", "norm": "_FillValue", "xtype": "int", "itype": "int", "vals": [-7], "n": 1, "obs": ["schema"]},
+                       {"op": "def_var", "name": "f2", "norm": "f2", "xtype": "short", "dims": [1], "obs": ["schema"]},
+                       {"op": "enddef"}]
+                for r in range(3):
+                    st.append({"op": "get", "v": 1, "mode": "coll", "itype": "int", "rec": r, "form": "vara", "n": W, "start": [r, 0], "count": [1, W], "obs": []})
+                    st.append({"op": "get", "v": 0, "mode": "coll", "itype": "int", "rec": r, "form": "vara", "n": W, "start": [r, 0], "count": [1, W], "obs": []})
+                st.append({"op": "close"})
+                for s in st:
+                    s.setdefault("obs", O)
+                ex.append({"x": "sb%d" % n, "np": np_, "steps": st})
+                n += 1
+    return ex
+
+
 def run(tier, seed):
     rng = random.Random(seed)
     mc = filecheck.design_check()
@@ -27,6 +85,7 @@ def run(tier, seed):
             tr = filegen.Translator(rng, fmt=fmt, np=np_)
             execs.append({"x": "w%d" % i, "np": np_, "steps": tr.steps(h, filecheck.NAMES)})
             i += 1
+    execs += scenarios(tier)
     return filecheck.run(PID, tier, seed, execs, mc,
                          "random walks of File_MC that exercise a fill mechanism (dataset set_fill before/after definitions, "
                          "def_var_fill on/off, _FillValue attributes, fill_var_rec, redefinitions adding fixed and record variables "
